@@ -652,7 +652,8 @@ func setOffsetInAdaptationSet(cfg *ResponseConfig, as *m.AdaptationSetType) (ato
 			as.ProducerReferenceTimes = createProducerReferenceTimes(cfg.StartTimeS)
 		}
 	}
-	atoMS = int(1000 * ato)
+	// Rounded: 1000*1.001 is 1000.9999999999999 in float64, and must be the 1001 ms that the segment requests use
+	atoMS = int(math.Round(1000 * ato))
 	return atoMS, nil
 }
 
@@ -786,7 +787,7 @@ func calcPublishTimeMS(cfg *ResponseConfig, se segEntries, nowMS int, tsbd m.Dur
 	firstEndMS := int64(((*first.T+first.D)*1000 + ts - 1) / ts)
 	atoMS := int64(0)
 	if ato := cfg.getAvailabilityTimeOffsetS(); ato > 0 && !math.IsInf(ato, +1) {
-		atoMS = int64(ato * 1000)
+		atoMS = int64(math.Round(ato * 1000))
 	}
 	firstChangeMS := firstEndMS + int64(cfg.StartTimeS)*1000 + int64(tsbd)/1_000_000 - atoMS
 	if firstChangeMS <= int64(nowMS) && firstChangeMS > publishMS {
